@@ -87,8 +87,12 @@ int BackendApp::Run(char **argv) {
     // For mp::Error, which can be thrown by Abort() or MP_RAISE,
     // we try to print the result into .sol file,
     // if the solution handler is available.
+    // exit_code() is a solve result only when raised via MP_RAISE_WITH_CODE;
+    // mp::Error's default (EXIT_FAILURE, e.g. UnsupportedError, nl::ReadError)
+    // is a process status and must not be reported as solve_result 1 ("solved").
     GetBackend().ReportError(
-          er.exit_code()>=0 ? er.exit_code() : sol::FAILURE,
+          er.exit_code()>=0 && er.exit_code()!=EXIT_FAILURE
+            ? er.exit_code() : sol::FAILURE,
           std::string(GetBackend().long_name()) + ":  "
           + er.what());
   } catch (const std::exception& ex) {
